@@ -247,6 +247,34 @@ def laplace_init_and_impedance(eng, cls, args, kw, f):
     return load, eng.call_qual('Laplace_Load.impedance', [load, f])
 
 
+
+def t_laplace_constructed(eng):
+    """a general Laplace load built by the REAL constructor from coefficient lists a (denominator) and b (numerator) of
+    length 2 (arbitrary values, a[0] neither 0 nor 1 included): the impedance at frequency f is
+    (b0 + b1 s) / (a0 + a1 s), s = j 2 pi f 1e6 -- whatever the constructor does to the coefficients (padding, copying,
+    normalising) must not change that ratio."""
+    n = P + '/Laplace_Load[constructed]/'
+    f = fresh_real('f')
+    eng.assume(r_cmp('>', f, 0))
+    s = CX(0, r_mul(r_mul(r_mul(2, B.PI), f), Fraction(1000000)))
+    a0, a1, b0, b1 = (fresh_real(x) for x in ('a0', 'a1', 'b0', 'b1'))
+    eng.assume(r_cmp('!=', a0, 0))
+    kw = {'a': SList([('conc', [a0, a1])]), 'b': SList([('conc', [b0, b1])])}
+    try:
+        load, zz = laplace_init_and_impedance(eng, 'Laplace_Load', [], kw, f)
+    except PyRaise as ex:
+        eng.oblige(n + 'only-a-vanishing-denominator-raises', ex.cls == 'ZeroDivisionError', detail=ex.cls)
+        return
+    eng.cover('laplace-constructed')
+    num = c_add(to_cx(b0), c_mul(to_cx(b1), s))
+    den = c_add(to_cx(a0), c_mul(to_cx(a1), s))
+    eng.oblige(n + 'impedance-is-the-ratio-of-the-given-polynomials', c_eq(c_mul(to_cx(zz), den), num))
+
+
+U_LAP2 = Unit(P + '/Laplace_Load-constructed', ['Laplace_Load.__init__', 'Laplace_Load.impedance'], t_laplace_constructed, SCH,
+              notes='bounded(shape): two coefficients each; values symbolic')
+
+
 def t_rlc(eng):
     n = P + '/Series_RLC_Load/'
     f = fresh_real('f')
@@ -761,4 +789,4 @@ U_FIXD = Unit(P + '/Mininec.fix_distributed_loads', ['Mininec.fix_distributed_lo
               canaries=[Canary('distributed-load-attached-from-one-side-only', 'Mininec.fix_distributed_loads', _OneSided,
                                [P + '/Mininec.fix_distributed_loads/'])])
 
-UNITS = [U_ML, U_SCALAR, U_LEAN, U_LAP, U_RLC, U_TRAP, U_SIMPLE, U_DVECS, U_SKIN, U_SKIN_INIT, U_INS, U_INS2, U_GR, U_FSET, U_FIXD]
+UNITS = [U_ML, U_SCALAR, U_LEAN, U_LAP, U_LAP2, U_RLC, U_TRAP, U_SIMPLE, U_DVECS, U_SKIN, U_SKIN_INIT, U_INS, U_INS2, U_GR, U_FSET, U_FIXD]
